@@ -14,7 +14,7 @@ from catalogue import configs as C
 
 CTYPE = dict((t.name, t.c) for t in C.ALL)
 UTYPE = {8: 'uint8_t', 16: 'uint16_t', 32: 'uint32_t', 64: 'uint64_t'}
-ARGN = {'b': ['a', 'b', 'c', 'd'], 'm': ['m', 'n'], 's': ['s', 't', 'w'], 'k': ['k', 'l'], 'u': ['u', 'v'], 'p': ['p', 'q'], 'P': ['o', 'r'], 'x': ['x', 'y']}
+ARGN = {'b': ['a', 'b', 'c', 'd', 'e', 'f'], 'm': ['m', 'n'], 's': ['s', 't', 'w'], 'k': ['k', 'l'], 'u': ['u', 'v'], 'p': ['p', 'q'], 'P': ['o', 'r'], 'x': ['x', 'y']}
 ITYPE = {8: 'int8_t', 16: 'int16_t', 32: 'int32_t', 64: 'int64_t'}
 
 
@@ -262,6 +262,31 @@ def analyse_wrapper(mod, cfg, fn, op, ty, var, names):
         lane_args = [sa[i] for sa in specargs]
         alts = op.spec(ty, *lane_args, **var)
         hit = None
+        if alts and alts[0][0] == '__poly__':
+            # sum-of-products comparison (C16): the lane term with every rounding erased must be the textbook polynomial
+            from catalogue import specs as S_
+            want, den = alts[0][2]
+            try:
+                gt = T.single_term(got)
+                if den is not None:
+                    if gt is None or gt.name != 'fdiv':
+                        raise S_.NotPoly('result is not a quotient')
+                    ok = S_.fp_poly(gt.ops[0]) == want and S_.fp_poly(gt.ops[1]) == den
+                else:
+                    ok = S_.fp_poly(got) == want
+                why = 'polynomial differs'
+            except S_.NotPoly as e:
+                ok, why = False, str(e)
+            dep = T.atoms_of(got)
+            if [a for a in dep if a[1] != i and not a[0] in ('s', 't')]:
+                deps_ok = False
+            if not ok:
+                res['fp'] = hashlib.sha1(T.fmt(got, 60).encode()).hexdigest()[:12]
+                res.update(status='mismatch', lane=i, got=T.fmt(got, 8)[:1500], want='textbook sum of products %s%s' % (sorted(want.items())[:6], ' / %s' % sorted(den.items()) if den else ''),
+                           diff_path='', diff_got='%s: %s' % (why, T.fmt(got, 6)[:400]), diff_want='sum-of-products form', chain=src_of(got), deps_ok=deps_ok)
+                return res
+            labels.add('sum of products')
+            continue
         for (label, k, want) in alts:
             if op.ret == 'm' and not cfg.mask_regs:
                 want = T.rep(want, W)
